@@ -358,7 +358,7 @@ Proof.
   destruct (ramp_cases c H) as [[Hk ->]|[[Hk ->]|[Hk ->]]].
   - pose proof (ramp_bounds (bump c) Hb). cbn [bump c_r0] in *. lia.
   - destruct (ramp_cases (bump c) Hb) as [[Hk' ->]|[[Hk' ->]|[Hk' ->]]]; cbn [bump c_r0 c_lim c_ti c_tl c_k] in *; try lia.
-    + unfold c_step; cbn [c_r0 c_lim c_ti c_tl]. fold (c_step c).
+    + change (c_step (bump c)) with (c_step c).
       apply N.add_le_mono_l, N.mul_le_mono_r. lia.
     + assert (c_k c - c_ti c + 1 <= c_tl c - c_ti c) as Ha by lia.
       pose proof (ramp_budget c (c_k c - c_ti c + 1) H Ha). lia.
@@ -390,9 +390,11 @@ Proof.
     assert (ramp c + c_step c = ramp (bump c) /\ ramp (bump c) <= c_lim c) as [Hnew Hfit].
     { pose proof (ramp_bounds (bump c) Hokb) as Hbb. cbn [bump c_lim] in Hbb. split; [|lia].
       destruct (ramp_cases (bump c) Hokb) as [[Hk ?]|[[Hk Hr']|[Hk ?]]]; cbn [bump c_r0 c_lim c_ti c_tl c_k] in *; try lia.
-      rewrite Hr'. unfold c_step at 2; cbn [c_r0 c_lim c_ti c_tl]. fold (c_step c).
-      destruct (ramp_cases c Hok) as [[Hkk ->]|[[Hkk ->]|[Hkk ?]]]; [|nia|lia].
-      assert (c_k c + 1 - c_ti c = 0) as -> by lia. lia. }
+      rewrite Hr'. change (c_step (bump c)) with (c_step c).
+      destruct (ramp_cases c Hok) as [[Hkk ->]|[[Hkk ->]|[Hkk ?]]]; [| |lia].
+      - assert (c_k c + 1 - c_ti c = 0) as -> by lia. lia.
+      - replace (c_k c + 1 - c_ti c + 1) with ((c_k c - c_ti c + 1) + 1) by lia.
+        rewrite N.mul_add_distr_r. lia. }
     rewrite Hnew.
     destruct (BR_MAX <? ramp (bump c)) eqn:E5; [unf; lia|].
     eexists; split; [reflexivity|]. unfold rel; pcbn. split; [exact Hokb|].
@@ -445,8 +447,8 @@ Proof.
         rewrite Hp'. cbn [fst snd]. split; [reflexivity|]. split; [reflexivity|].
         destruct (initial_rate_only_at_epoch_0 _ _ _ _ _ _ _ Hp') as (_ & Hnew & _).
         unfold br_new in Hnew. destruct (r =? 0); [discriminate|].
-        eapply update_rel; [reflexivity| |exact Hnew].
-        unfold cfg_ok; cbn [c_r0 c_lim c_ti c_tl]. lia.
+        apply (update_rel (mkP 0 0 0 0 0 r) r l ti tl p' eq_refl); [|exact Hnew].
+        unfold cfg_ok; cbn [c_r0 c_lim c_ti c_tl]. unf. lia.
       * destruct (configure_burn_rate e p l ti tl (Some r)) as [p'|] eqn:Hp'.
         -- exfalso. destruct (proj1 (configure_accepts_iff e p l ti tl (Some r)) (ex_intro _ p' Hp')) as (B1 & B2 & B3 & B4 & B5 & B6).
            assert ((e =? 0) && negb (r =? 0) && args_ok r l ti tl = true); [|congruence].
@@ -462,7 +464,7 @@ Proof.
         -- eapply update_rel; [exact Hnx| |exact Hp'].
            destruct Hc as (Hok & _). pose proof (ramp_bounds c Hok). destruct Hok as (K0 & K1 & K2 & K3 & K4 & K5).
            unfold cfg_ok; cbn [c_r0 c_lim c_ti c_tl]. lia.
-        -- destruct (update_next _ _ _ _ _ Hp') as (-> & _). exact Hc.
+        -- cbn [fst snd]. destruct (update_next _ _ _ _ _ Hp') as (Hn' & _). rewrite Hn'. exact Hc.
       * destruct (configure_burn_rate e p l ti tl None) as [p'|] eqn:Hp'.
         -- exfalso. destruct (proj1 (configure_accepts_iff e p l ti tl None) (ex_intro _ p' Hp')) as (B1 & B2 & B3 & B4).
            assert (next p = spec_next c) as Hnx by (destruct c as [c|]; [apply Hc|exact Hc]).
@@ -470,3 +472,281 @@ Proof.
            rewrite args_ok_spec. lia.
         -- cbn [fst snd]. split; [reflexivity|]. split; [reflexivity|exact Hc].
 Qed.
+
+(* every operation sequence: the parameter block as coded is observably the closed-form specification *)
+Lemma run_refines ops : forall s t, sim s t -> Forall op_ok ops -> run br_step s ops = run spec_step t ops.
+Proof.
+  induction ops as [|o ops IH]; intros s t Hs Hok; [reflexivity|].
+  inversion Hok as [|? ? Ho Hops]; subst. rewrite !run_cons.
+  destruct (step_sim s t o Hs Ho) as [Hr Hs']. rewrite Hr. f_equal. apply IH; assumption.
+Qed.
+
+Lemma sim_init : sim m_init s_init.
+Proof. split; reflexivity. Qed.
+
+Theorem model_refines_spec ops : Forall op_ok ops -> run br_step m_init ops = run spec_step s_init ops.
+Proof. intros. apply run_refines; [exact sim_init|assumption]. Qed.
+
+Lemma new_rel r l ti tl p : l <= BR_MAX -> ti < two32 -> tl < two32 ->
+  br_new r l ti tl = Some p -> rel p (mkC r l ti tl 0).
+Proof.
+  intros Hl Hti Htl H.
+  destruct (proj1 (new_accepts_iff r l ti tl) (ex_intro _ p H)) as (A1 & A2 & A3 & A4).
+  unfold br_new in H. destruct (r =? 0); [discriminate|].
+  apply (update_rel (mkP 0 0 0 0 0 r) r l ti tl p eq_refl); [|exact H].
+  unfold cfg_ok; cbn [c_r0 c_lim c_ti c_tl]. unf. lia.
+Qed.
+
+(* ------------------------------------------------------------------ the three phases, for a run of consecutive
+   distributions after a fresh `new` (no reconfiguration in between) *)
+Definition with_k (c : cfg) (k : N) : cfg := mkC (c_r0 c) (c_lim c) (c_ti c) (c_tl c) k.
+
+Lemma spec_computes n : forall e c,
+  run spec_step (e, Some c) (repeat BCompute n) =
+  map (fun j => RRate (ramp (with_k c (c_k c + N.of_nat j)))) (seq 0 n).
+Proof.
+  induction n as [|n IH]; intros e c; [reflexivity|].
+  cbn [repeat]. rewrite run_cons. cbn [spec_step fst snd]. rewrite IH.
+  cbn [seq map]. f_equal.
+  - f_equal. f_equal. unfold with_k. rewrite N.add_0_r. destruct c; reflexivity.
+  - rewrite <- seq_shift, map_map. apply map_ext. intros j. f_equal. f_equal.
+    unfold with_k, bump; cbn [c_r0 c_lim c_ti c_tl c_k]. f_equal. lia.
+Qed.
+
+Lemma rates_map_rate {A} (f : A -> N) l : rates (map (fun a => RRate (f a)) l) = map f l.
+Proof. induction l; cbn [map rates]; [reflexivity|]. f_equal. assumption. Qed.
+
+Lemma Forall_repeat_compute n : Forall op_ok (repeat BCompute n).
+Proof. induction n; cbn [repeat]; constructor; [reflexivity|assumption]. Qed.
+
+(* rate of the k-th distribution (k = 0, 1, ...) after parameters (r, l, ti, tl) were accepted *)
+Definition rate_at (r l ti tl k : N) : N := ramp (mkC r l ti tl k).
+
+Theorem fresh_run_closed_form r l ti tl p e n : l <= BR_MAX -> ti < two32 -> tl < two32 ->
+  br_new r l ti tl = Some p ->
+  rates (run br_step (e, p) (repeat BCompute n)) = map (fun j => rate_at r l ti tl (N.of_nat j)) (seq 0 n).
+Proof.
+  intros Hl Hti Htl H. pose proof (new_rel r l ti tl p Hl Hti Htl H) as Hr.
+  rewrite (run_refines (repeat BCompute n) (e, p) (e, Some (mkC r l ti tl 0))).
+  - rewrite spec_computes. rewrite (rates_map_rate (fun j => ramp (with_k (mkC r l ti tl 0) (c_k (mkC r l ti tl 0) + N.of_nat j)))).
+    apply map_ext. intros j. unfold rate_at, with_k. cbn [c_r0 c_lim c_ti c_tl c_k]. f_equal.
+  - split; [reflexivity|exact Hr].
+  - apply Forall_repeat_compute.
+Qed.
+
+Lemma static_phase_ramp r l ti tl k : k < ti -> rate_at r l ti tl k = r.
+Proof. intros H. unfold rate_at, ramp; cbn [c_k c_ti c_r0]. destruct (k <? ti) eqn:E; [reflexivity|lia]. Qed.
+
+Lemma limit_phase_ramp r l ti tl k : tl <= k -> ti <= tl -> rate_at r l ti tl k = l.
+Proof. intros H H'. unfold rate_at, ramp; cbn [c_k c_ti c_tl c_lim]. destruct (k <? ti) eqn:E; [lia|]. destruct (k <? tl) eqn:E2; [lia|reflexivity]. Qed.
+
+(* one fixed step (l - r) / (tl - ti + 1) per epoch while ramping; the min with the limit never binds *)
+Lemma ramp_step_ramp r l ti tl k : cfg_ok (mkC r l ti tl 0) -> ti <= k + 1 -> k + 1 < tl ->
+  let step := (l - r) / (tl - ti + 1) in
+  rate_at r l ti tl (k + 1) = rate_at r l ti tl k + step /\
+  rate_at r l ti tl (k + 1) = N.min (rate_at r l ti tl k + step) l.
+Proof.
+  intros Hok H1 H2 step.
+  assert (cfg_ok (mkC r l ti tl (k + 1))) as Hok1 by exact Hok.
+  pose proof (ramp_bounds _ Hok1) as Hb. cbn [c_r0 c_lim] in Hb. fold (rate_at r l ti tl (k + 1)) in Hb.
+  assert (rate_at r l ti tl (k + 1) = rate_at r l ti tl k + step) as Heq.
+  { unfold rate_at, ramp; cbn [c_k c_ti c_tl c_lim c_r0]. unfold c_step; cbn [c_ti c_tl c_lim c_r0]. fold step.
+    destruct (k + 1 <? ti) eqn:E1; [lia|]. destruct (k + 1 <? tl) eqn:E2; [|lia].
+    destruct (k <? ti) eqn:E3.
+    - assert (k + 1 - ti = 0) as -> by lia. lia.
+    - destruct (k <? tl) eqn:E4; [|lia].
+      replace (k + 1 - ti + 1) with ((k - ti + 1) + 1) by lia. rewrite N.mul_add_distr_r. lia. }
+  split; [exact Heq|]. rewrite <- Heq. lia.
+Qed.
+
+Lemma nth_error_map_seq {A} (f : nat -> A) n k : (k < n)%nat -> nth_error (map f (seq 0 n)) k = Some (f k).
+Proof.
+  intros H. rewrite nth_error_map. rewrite (nth_error_nth' (seq 0 n) O) by (rewrite seq_length; exact H).
+  rewrite seq_nth by exact H. reflexivity.
+Qed.
+
+Theorem static_phase r l ti tl p e n k : l <= BR_MAX -> ti < two32 -> tl < two32 -> br_new r l ti tl = Some p ->
+  (k < n)%nat -> N.of_nat k < ti ->
+  nth_error (rates (run br_step (e, p) (repeat BCompute n))) k = Some r.
+Proof.
+  intros Hl Hti Htl H Hk Hs. rewrite (fresh_run_closed_form r l ti tl p e n Hl Hti Htl H).
+  rewrite nth_error_map_seq by exact Hk. f_equal. apply static_phase_ramp. exact Hs.
+Qed.
+
+Theorem limit_phase r l ti tl p e n k : l <= BR_MAX -> ti < two32 -> tl < two32 -> br_new r l ti tl = Some p ->
+  (k < n)%nat -> tl <= N.of_nat k ->
+  nth_error (rates (run br_step (e, p) (repeat BCompute n))) k = Some l.
+Proof.
+  intros Hl Hti Htl H Hk Hs. rewrite (fresh_run_closed_form r l ti tl p e n Hl Hti Htl H).
+  rewrite nth_error_map_seq by exact Hk. f_equal. apply limit_phase_ramp; [exact Hs|].
+  destruct (proj1 (new_accepts_iff r l ti tl) (ex_intro _ p H)) as (_ & _ & _ & ?). assumption.
+Qed.
+
+Theorem ramp_step r l ti tl p e n k : l <= BR_MAX -> ti < two32 -> tl < two32 -> br_new r l ti tl = Some p ->
+  (S k < n)%nat -> ti <= N.of_nat k + 1 -> N.of_nat k + 1 < tl ->
+  exists a b, nth_error (rates (run br_step (e, p) (repeat BCompute n))) k = Some a /\
+              nth_error (rates (run br_step (e, p) (repeat BCompute n))) (S k) = Some b /\
+              b = a + (l - r) / (tl - ti + 1) /\ b = N.min (a + (l - r) / (tl - ti + 1)) l.
+Proof.
+  intros Hl Hti Htl H Hk H1 H2. rewrite (fresh_run_closed_form r l ti tl p e n Hl Hti Htl H).
+  rewrite !nth_error_map_seq by lia.
+  eexists; eexists; split; [reflexivity|]. split; [reflexivity|].
+  destruct (new_rel r l ti tl p Hl Hti Htl H) as (Hok & _).
+  replace (N.of_nat (S k)) with (N.of_nat k + 1) by lia.
+  apply (ramp_step_ramp r l ti tl (N.of_nat k) Hok H1 H2).
+Qed.
+
+(* ------------------------------------------------------------------ the monitor accepts every trace of the model *)
+Definition mitem (s : mstate) (o : bop) : item :=
+  (o, snd (br_step s o), snd (fst (br_step s o)), fst (fst (br_step s o))).
+Fixpoint mtrace (s : mstate) (ops : list bop) : list item :=
+  match ops with [] => [] | o :: tl => mitem s o :: mtrace (fst (br_step s o)) tl end.
+
+Definition last_ok (last : N) (s : mstate) : Prop := last = 0 \/ (fst s <> 0 /\ last <= next (snd s)).
+
+Lemma params_eqb_refl p : params_eqb p p = true.
+Proof. unfold params_eqb. rewrite !N.eqb_refl. reflexivity. Qed.
+Lemma bres_eqb_refl r : bres_eqb r r = true.
+Proof. destruct r; cbn; rewrite ?N.eqb_refl; reflexivity. Qed.
+
+Lemma configure_fields e p l ti tl i p' : configure_burn_rate e p l ti tl i = Some p' ->
+  limit p' = l /\ to_inc p' = ti /\ to_lim p' = tl.
+Proof.
+  unfold configure_burn_rate. destruct (BR_MAX <? l); [discriminate|]. destruct i as [r|].
+  - destruct (negb (e =? 0)); [discriminate|]. destruct (BR_MAX <? r); [discriminate|].
+    intros H. rewrite (new_fields _ _ _ _ _ H). auto.
+  - intros H. apply update_next in H. tauto.
+Qed.
+
+Lemma mon_check_model s t last o : sim s t -> op_ok o -> last_ok last s ->
+  mon_check t (snd s) last (mitem s o) = 0 /\
+  last_ok (match snd (br_step s o) with RRate x => x | _ => last end) (fst (br_step s o)).
+Proof.
+  intros Hsim Hok Hlast. destruct (step_sim s t o Hsim Hok) as [Hres Hsim'].
+  unfold mon_check, mitem.
+  destruct (spec_step t o) as [[e2 c2] r2] eqn:Hs. cbn [fst snd] in Hres, Hsim'.
+  destruct (br_step s o) as [[e1 p1] r1] eqn:Hm. cbn [fst snd] in *. subst r2.
+  destruct Hsim' as [He Hc']. cbn [fst snd] in He, Hc'. subst e2.
+  rewrite bres_eqb_refl, N.eqb_refl. cbn [negb].
+  destruct s as [e p], t as [e0 c]. destruct Hsim as [He0 Hc]. unfold last_ok in *. cbn [fst snd] in *. subst e0.
+  destruct o as [|l ti tl i].
+  - (* InitializeDistribution *)
+    cbn [br_step spec_step] in Hm, Hs. destruct c as [c|].
+    + destruct (compute_rel p c Hc) as (p' & Hcp & Hr'). rewrite Hcp in Hm. inversion Hm; subst; clear Hm.
+      inversion Hs; subst; clear Hs.
+      destruct Hc as (Hok' & Hl & _ & _ & _ & _ & Hn). pose proof (ramp_bounds c Hok') as Hb.
+      destruct Hok' as (K0 & K1 & K2 & K3 & K4 & K5).
+      destruct Hr' as (Hokb & Hl' & _ & _ & _ & _ & Hn'). pose proof (ramp_mono c (conj K0 (conj K1 (conj K2 (conj K3 (conj K4 K5)))))) as Hmono.
+      assert (last <= ramp c) as Hlr by (destruct Hlast as [?|[_ ?]]; lia).
+      rewrite (proj2 (N.leb_le _ _) Hlr). cbn [negb].
+      rewrite Hl. rewrite (proj2 (N.leb_le _ _) (proj2 Hb)), (proj2 (N.leb_le _ _) K2). cbn [andb negb].
+      rewrite Hl'. cbn [bump c_lim]. rewrite N.eqb_refl. cbn [negb].
+      cbn [spec_next]. rewrite Hn', N.eqb_refl. cbn [negb]. split; [reflexivity|].
+      right. split; [apply epoch_succ_pos|exact Hmono].
+    + rewrite (compute_unset p Hc) in Hm. inversion Hm; subst; clear Hm. inversion Hs; subst; clear Hs.
+      rewrite params_eqb_refl. split; [reflexivity|exact Hlast].
+  - (* ConfigureProgram *)
+    cbn [br_step] in Hm.
+    destruct (configure_burn_rate e p l ti tl i) as [p'|] eqn:Hcf; inversion Hm; subst; clear Hm.
+    + destruct (configure_fields _ _ _ _ _ _ _ Hcf) as (F1 & F2 & F3). rewrite F1, F2, F3, !N.eqb_refl. cbn [andb negb].
+      assert (next p1 = spec_next c2 /\ next p1 <= l) as [Hn Hle].
+      { destruct c2 as [c2|]; cbn [spec_next].
+        - destruct Hc' as (Hok2 & Hl2 & _ & _ & _ & _ & Hn2). split; [exact Hn2|].
+          pose proof (ramp_bounds c2 Hok2). rewrite Hn2, <- F1, Hl2. lia.
+        - split; [exact Hc'|]. rewrite Hc'. lia. }
+      rewrite Hn, N.eqb_refl. cbn [negb]. rewrite <- Hn. rewrite (proj2 (N.leb_le _ _) Hle). cbn [negb].
+      split; [reflexivity|]. cbn [fst snd].
+      destruct i as [r|].
+      * destruct (initial_rate_only_at_epoch_0 _ _ _ _ _ _ _ Hcf) as (He & _).
+        destruct Hlast as [?|[? ?]]; [left; assumption|contradiction].
+      * assert (next p1 = next p) as Hnn by (unfold configure_burn_rate in Hcf; destruct (BR_MAX <? l); [discriminate|]; apply update_next in Hcf; tauto).
+        rewrite Hnn. exact Hlast.
+    + rewrite params_eqb_refl. split; [reflexivity|exact Hlast].
+Qed.
+
+Lemma mon_go_model ops : forall s t last i, sim s t -> Forall op_ok ops -> last_ok last s ->
+  mon_go t (snd s) last (mtrace s ops) i = None.
+Proof.
+  induction ops as [|o ops IH]; intros s t last i Hsim Hok Hlast; [reflexivity|].
+  inversion Hok as [|? ? Ho Hops]; subst. cbn [mtrace mon_go].
+  destruct (mon_check_model s t last o Hsim Ho Hlast) as [-> Hlast'].
+  unfold mitem at 1.
+  destruct (step_sim s t o Hsim Ho) as [_ Hsim'].
+  apply IH; assumption.
+Qed.
+
+Theorem mon_C14_accepts_model ops : Forall op_ok ops -> mon_C14 (br_default, 0, mtrace m_init ops) = None.
+Proof.
+  intros Hok. unfold mon_C14. rewrite params_eqb_refl, N.eqb_refl. cbn [andb].
+  apply (mon_go_model ops m_init s_init 0 0 sim_init Hok). left; reflexivity.
+Qed.
+
+Lemma corr_go_model ops : forall s i, Forall op_ok ops -> corr_go s (mtrace s ops) i = None.
+Proof.
+  induction ops as [|o ops IH]; intros s i Hok; [reflexivity|].
+  inversion Hok as [|? ? Ho Hops]; subst. cbn [mtrace corr_go]. unfold mitem.
+  unfold op_ok in Ho. rewrite Ho. cbn [negb].
+  destruct (br_step s o) as [[e' p'] r']. cbn [fst snd].
+  rewrite bres_eqb_refl, params_eqb_refl, N.eqb_refl. cbn [andb]. apply IH; assumption.
+Qed.
+
+(* a rejected reconfiguration / failed initialization changes neither the block nor the epoch *)
+Lemma update_rejected_unchanged s o : snd (br_step s o) = RRej \/ snd (br_step s o) = RFail -> fst (br_step s o) = s.
+Proof. exact (step_failed_unchanged s o). Qed.
+
+(* ------------------------------------------------------------------ non-vacuity and sharpness *)
+Definition ex_p : params := mkP 500000000 2 5 400000000 4 100000000.
+Example ex_p_new : br_new 100000000 500000000 2 5 = Some ex_p.
+Proof. vm_compute. reflexivity. Qed.
+Example wf_nonvacuous : wf ex_p.
+Proof. apply (new_wf 100000000 500000000 2 5); [unf; lia..|exact ex_p_new]. Qed.
+Example update_wf_nonvacuous : exists p', br_update ex_p 600000000 3 9 = Some p' /\ wf p'.
+Proof. exists (mkP 600000000 3 9 500000000 7 100000000). split; [vm_compute; reflexivity|]. apply (update_wf ex_p 600000000 3 9); [cbn; lia|unf; lia..|vm_compute; reflexivity]. Qed.
+Example compute_nonvacuous : br_compute ex_p = Some (100000000, mkP 500000000 1 4 400000000 4 100000000).
+Proof. vm_compute. reflexivity. Qed.
+(* without well-formedness checked_compute can fail (BurnRate::try_from rejects 2 * 10^9): the hypothesis is needed *)
+Example compute_needs_wf : br_compute (mkP 1000000000 1 5 1000000000 1 1000000000) = None.
+Proof. vm_compute. reflexivity. Qed.
+
+Example update_accepts_iff_nonvacuous :
+  br_update ex_p 100000000 1 1 <> None /\            (* limit = next rate, shortest schedule *)
+  br_update ex_p 99999999 1 1 = None /\              (* limit below the next rate *)
+  br_update ex_p 500000000 0 1 = None /\             (* zero static period *)
+  br_update ex_p 500000000 2 1 = None.               (* limit epoch before the static period ends *)
+Proof. vm_compute. repeat split; try reflexivity. discriminate. Qed.
+
+Example initial_rate_only_at_epoch_0_nonvacuous :
+  configure_burn_rate 0 br_default 500000000 2 5 (Some 100000000) = Some ex_p /\
+  configure_burn_rate 0 ex_p 10 1 3 (Some 5) = Some (mkP 10 1 3 5 3 5) /\       (* may be replaced, even lowered, before the first distribution *)
+  configure_burn_rate 1 ex_p 500000000 2 5 (Some 100000000) = None /\
+  configure_burn_rate 1 ex_p 600000000 2 5 None <> None.
+Proof. vm_compute. repeat split; try reflexivity. discriminate. Qed.
+
+Definition ex_ops : list bop :=
+  [BCompute; BUpdate 5 1 2 None; BUpdate 500000000 1 4 (Some 100000000); BCompute; BUpdate 50000000 1 1 None;
+   BUpdate 600000000 2 9 None; BUpdate 600000000 2 9 (Some 1); BCompute; BCompute; BCompute; BUpdate 299999999 1 1 None; BUpdate 300000000 1 1 None; BCompute; BCompute].
+Example ex_ops_ok : Forall op_ok ex_ops.
+Proof. repeat constructor. Qed.
+Example rates_nondecreasing_nonvacuous :
+  run br_step m_init ex_ops =
+  [RFail; RAcc; RAcc; RRate 100000000; RRej; RAcc; RRej; RRate 200000000; RRate 200000000; RRate 250000000; RRej; RAcc; RRate 300000000; RRate 300000000] /\
+  rate_limits m_init ex_ops = [(100000000, 500000000); (200000000, 600000000); (200000000, 600000000); (250000000, 600000000);
+                               (300000000, 300000000); (300000000, 300000000)].
+Proof. vm_compute. split; reflexivity. Qed.
+
+Example phases_nonvacuous :
+  rates (run br_step (7, ex_p) (repeat BCompute 8)) =
+  [100000000; 100000000; 200000000; 300000000; 400000000; 500000000; 500000000; 500000000].
+Proof. vm_compute. reflexivity. Qed.
+(* rounding: 3 / 4 = 0 per epoch during the ramp, the remainder is made up when the limit epoch is reached *)
+Example ramp_rounding_example :
+  exists p, br_new 1 4 1 4 = Some p /\ rates (run br_step (0, p) (repeat BCompute 6)) = [1; 1; 1; 1; 4; 4].
+Proof. exists (mkP 4 1 4 3 4 1). split; vm_compute; reflexivity. Qed.
+
+Example mon_C14_rejects_nonvacuous :
+  (* a trace whose second rate decreased / whose rejected update changed the block / that reached the limit late is refused *)
+  mon_C14 (br_default, 0, [(BUpdate 5 1 2 (Some 3), RAcc, mkP 5 1 2 2 2 3, 0); (BCompute, RRate 3, mkP 5 0 1 2 2 4, 1); (BCompute, RRate 2, mkP 5 0 0 2 2 5, 2)]) = Some (2, 1) /\
+  mon_C14 (br_default, 0, [(BUpdate 5 1 2 (Some 3), RAcc, mkP 5 1 2 2 2 3, 0); (BUpdate 2 1 2 None, RRej, mkP 2 1 2 2 2 3, 0)]) = Some (1, 10) /\
+  mon_C14 (br_default, 0, [(BUpdate 5 1 2 (Some 3), RAcc, mkP 5 1 2 2 2 3, 0); (BCompute, RRate 3, mkP 5 0 1 2 2 4, 1); (BCompute, RRate 4, mkP 5 0 0 2 2 4, 2)]) = Some (2, 6) /\
+  mon_C14 (br_default, 0, [(BUpdate 5 1 2 (Some 3), RAcc, mkP 5 1 2 2 2 3, 0); (BCompute, RRate 3, mkP 5 0 1 2 2 4, 1); (BUpdate 5 1 2 (Some 1), RAcc, mkP 5 1 2 4 2 1, 1)]) = Some (2, 1).
+Proof. vm_compute. repeat split; reflexivity. Qed.
